@@ -941,7 +941,10 @@ impl Element {
     // internal function to set the character data - separated out since it doesn't need to be generic
     fn set_character_data_internal(&self, mut chardata: CharacterData) -> Result<(), AutosarDataError> {
         let elemtype = self.elemtype();
-        if elemtype.content_mode() == ContentMode::Characters || elemtype.content_mode() == ContentMode::Mixed {
+        // mixed content can only be replaced by character data as long as it does not contain any sub elements
+        if elemtype.content_mode() == ContentMode::Characters
+            || (elemtype.content_mode() == ContentMode::Mixed && self.sub_elements().next().is_none())
+        {
             if let Some(cdata_spec) = elemtype.chardata_spec() {
                 let model = self.model()?;
                 let version = self.min_version()?;
